@@ -50,11 +50,12 @@ impl ByteModel {
         }
         let kept = &self.pending[..remaining.len()];
         let dropped = &self.pending[remaining.len()..];
+        let kept_frames: std::collections::BTreeSet<u32> = kept.iter().map(|(_, g)| *g).collect();
         for (b, f) in dropped {
             if self.started.contains(f) {
                 return Err(format!("byte {b} of frame {f} was dropped although that frame had started transmission"));
             }
-            if kept.iter().any(|(_, g)| g == f) {
+            if kept_frames.contains(f) {
                 return Err(format!("frame {f} was dropped only partially (byte {b} dropped, earlier bytes kept)"));
             }
         }
